@@ -23,6 +23,7 @@ import (
 	"sort"
 	"strings"
 	"sync"
+	"time"
 
 	"oras.land/oras-go/v2/registry/remote/auth"
 	"verifharness/common"
@@ -51,6 +52,7 @@ type regState struct {
 	clientCred  auth.Credential // what the client holds for this host
 	basicAsked  bool            // the registry has sent a Basic challenge in this history
 	anonymousOK bool
+	credErr     bool // the client's CredentialFunc fails for this registry
 }
 
 type issued struct {
@@ -95,8 +97,12 @@ type world struct {
 	noRedirect  bool
 	passthrough bool // the current request carries the caller's own Authorization header
 	perJobFetch map[int]int     // token requests per job (concurrent mixes)
+	jobEvents   map[int][]string
+	jobAnswers  map[int][]string
+	cancelAt401 map[int]context.CancelFunc // jobs whose context is cancelled the moment the registry challenges them
 	ptable      []string        // parse results of headers outside Model/Challenge.v (for the model's parse_with)
 	ptableSeen  map[string]bool
+	redirects   [][2]string // redirect follow-ups seen: model line, observation
 	noScope  bool           // a Bearer challenge without scope parameter was sent during this call
 	perReq   map[string]int // registry sends per X-Verif-Req (concurrent cases)
 
@@ -368,6 +374,38 @@ func (w *world) checkChallenge(hdr string, ps []chParam) {
 	}
 }
 
+// redirectCase: what net/http did with the Authorization header and the body of the
+// redirected request, against Model/Redirect.v.  Judged only when the original
+// request had the header resp. a body.
+func (w *world) redirectCase(req *http.Request, body []byte) {
+	orig := req.Response.Request
+	if orig == nil {
+		return
+	}
+	hadAuth := orig.Header.Get("Authorization") != ""
+	hadBody := orig.Method == http.MethodPost
+	if !hadAuth && !hadBody {
+		return
+	}
+	authObs, bodyObs := "AUTH-STRIPPED", "BODY-DROPPED"
+	if req.Header.Get("Authorization") != "" {
+		authObs = "AUTH-KEPT"
+	}
+	if len(body) > 0 && req.Method == orig.Method {
+		bodyObs = "BODY-KEPT"
+	}
+	line := fmt.Sprintf("RD %s %s %d", common.Hex(orig.URL.Host), common.Hex(req.URL.Host), req.Response.StatusCode)
+	model := authObs + " " + bodyObs
+	// compare only what was observable
+	if !hadAuth {
+		line += " noauth"
+	}
+	if !hadBody {
+		line += " nobody"
+	}
+	w.redirects = append(w.redirects, [2]string{line, model})
+}
+
 func isTokenPath(p string) bool {
 	return p == "/token" || p == "/auth/token" || (len(p) > 2 && p[:2] == "/t" && p[2] >= '0' && p[2] <= '9')
 }
@@ -388,6 +426,12 @@ func (w *world) RoundTrip(req *http.Request) (*http.Response, error) {
 	}
 	host := req.URL.Host
 	dump := dumpRequest(req, body)
+	if w.cancelAt401 != nil {
+		// concurrent mixes: like the real transport, nothing is sent for a dead context
+		if err := req.Context().Err(); err != nil {
+			return nil, err
+		}
+	}
 
 	if w.authHost[host] || isTokenPath(req.URL.Path) {
 		return w.tokenEndpoint(req, body, dump)
@@ -417,6 +461,7 @@ func (w *world) RoundTrip(req *http.Request) (*http.Response, error) {
 	if followUp {
 		// the redirect target just serves the content; the hop is net/http's, not a send of Client.Do
 		run.Count("history/redirect-followed")
+		w.redirectCase(req, body)
 		return resp(req, 200, nil, "content"), nil
 	}
 	ah := req.Header.Get("Authorization")
@@ -460,7 +505,7 @@ func (w *world) RoundTrip(req *http.Request) (*http.Response, error) {
 		w.perReq[id]++
 	}
 	ev := fmt.Sprintf("R%d:%s", g.idx, w.projectAuthHeader(ah))
-	w.events = append(w.events, ev)
+	w.logEvent(req, ev)
 	if w.injectFailure() {
 		return nil, errInjected
 	}
@@ -483,7 +528,7 @@ func (w *world) RoundTrip(req *http.Request) (*http.Response, error) {
 		}
 	}
 	if ok {
-		w.answers = append(w.answers, "K")
+		w.logAnswer(req, "K")
 		if !w.noRedirect && (req.Method == http.MethodGet || req.Method == http.MethodHead) && w.r.Chance(1, 10) {
 			// redirect: to another registry (other host name), to the same host name on
 			// another port when such a registry exists, or to this registry's alias
@@ -496,20 +541,30 @@ func (w *world) RoundTrip(req *http.Request) (*http.Response, error) {
 					}
 				}
 			}
-			targets = append(targets, g.alias)
+			targets = append(targets, g.alias, "blobs."+g.host) // the alias address and a sub-domain of this registry
 			w.redirected = true
 			return resp(req, common.Pick(w.r, []int{307, 302}), http.Header{"Location": {"http://" + common.Pick(w.r, targets) + req.URL.Path}}, ""), nil
 		}
 		return resp(req, common.Pick(w.r, []int{200, 200, 201, 404, 403}), nil, "ok"), nil
 	}
 	ch := g.challenge(w, repo, action)
-	w.answers = append(w.answers, "U"+common.Hex(ch))
+	if jb, ok := req.Context().Value(jobKey{}).(int); ok {
+		if c := w.cancelAt401[jb]; c != nil {
+			c() // the caller gives up while the challenge is on its way: it reaches cache.Set with a dead context
+		}
+	}
+	w.logAnswer(req, "U"+common.Hex(ch))
 	h := http.Header{}
 	if ch != "" {
 		h.Set("Www-Authenticate", ch)
 	}
 	return resp(req, 401, h, "unauthorized"), nil
 }
+
+// requestDeadline bounds every request of a sequential history (they take microseconds).
+const requestDeadline = 5 * time.Second
+
+var errCredHelper = errors.New("credential helper failed")
 
 var errInjected = errors.New("fakeNet: injected transport failure")
 
@@ -531,6 +586,31 @@ func (w *world) injectFailure() bool {
 		return true
 	}
 	return false
+}
+
+// logEvent / logAnswer record a send and what came back, for the history as a whole and
+// (concurrent mixes) per job.
+func (w *world) logEvent(req *http.Request, ev string) {
+	w.events = append(w.events, ev)
+	if jb, ok := req.Context().Value(jobKey{}).(int); ok && w.jobEvents != nil {
+		w.jobEvents[jb] = append(w.jobEvents[jb], ev)
+	}
+}
+
+func (w *world) logAnswer(req *http.Request, a string) {
+	w.answers = append(w.answers, a)
+	if jb, ok := req.Context().Value(jobKey{}).(int); ok && w.jobAnswers != nil {
+		w.jobAnswers[jb] = append(w.jobAnswers[jb], a)
+	}
+}
+
+// projectToken names a token value the way the model does (B<i> A<i> I<i>.<serial>).
+func (w *world) projectToken(scheme auth.Scheme, t string) string {
+	h := "Bearer " + t
+	if scheme == auth.SchemeBasic {
+		h = "Basic " + t
+	}
+	return w.projectAuthHeader(h)[1:]
 }
 
 func oneLine(s string) string {
@@ -567,6 +647,9 @@ func (w *world) tokenEndpoint(req *http.Request, body []byte, dump string) (*htt
 		}
 	}
 	followUp := req.Response != nil // net/http re-sent the token request after a redirect
+	if followUp {
+		w.redirectCase(req, body)
+	}
 	if !followUp {
 		w.fetches++
 		w.fetchCount[service]++
@@ -642,7 +725,7 @@ func (w *world) tokenEndpoint(req *http.Request, body []byte, dump string) (*htt
 		ev = fmt.Sprintf("D%s:%s:%s:%s:%s", forh, common.Hex(realm), common.Hex(service), common.Hex(scopeStr), basic)
 	}
 	if !followUp {
-		w.events = append(w.events, ev)
+		w.logEvent(req, ev)
 		if w.injectFailure() {
 			w.mu.Unlock()
 			return nil, errInjected
@@ -660,7 +743,7 @@ func (w *world) tokenEndpoint(req *http.Request, body []byte, dump string) (*htt
 			if req.URL.RawQuery != "" {
 				loc += "?" + req.URL.RawQuery
 			}
-			return resp(req, 307, http.Header{"Location": {loc}}, ""), nil
+			return resp(req, common.Pick(w.r, []int{307, 307, 308, 302}), http.Header{"Location": {loc}}, ""), nil
 		}
 	}
 	if !w.tokenUp {
@@ -669,13 +752,13 @@ func (w *world) tokenEndpoint(req *http.Request, body []byte, dump string) (*htt
 	gate := w.gate
 	var out *http.Response
 	if !valid {
-		w.answers = append(w.answers, "F")
+		w.logAnswer(req, "F")
 		out = resp(req, common.Pick(w.r, []int{401, 403, 500}), nil, `{"errors":[{"code":"UNAUTHORIZED","message":"no"}]}`)
 	} else {
 		w.serial++
 		tk := fmt.Sprintf("tk-h%d-%d-%x", g.idx, w.serial, w.r.U64()&0xffffff)
 		w.tokens[tk] = &issued{reg: g.idx, serial: w.serial, scopes: scopes}
-		w.answers = append(w.answers, fmt.Sprintf("T%d", w.serial))
+		w.logAnswer(req, fmt.Sprintf("T%d", w.serial))
 		field := "token"
 		if req.Method == http.MethodPost || w.r.Bool() {
 			field = "access_token"
@@ -740,9 +823,11 @@ func newWorld(r *common.Rand) *world {
 			g.clientCred.AccessToken = ""
 		}
 		g.alias = fmt.Sprintf("10.0.0.%d:5000", i+1)
+		g.credErr = r.Chance(1, 12)
 		w.regs = append(w.regs, g)
 		w.byHost[g.host] = g
 		w.byHost[g.alias] = g
+		w.byHost["blobs."+g.host] = g
 		w.randomizeMode(g)
 	}
 	return w
@@ -777,6 +862,9 @@ func (w *world) randomizeMode(g *regState) {
 // validFor tells whether the client's credential lets a Do call succeed against g in its current mode.
 func (w *world) validFor(g *regState, oauth2 bool) bool {
 	c := g.clientCred
+	if g.credErr && g.mode != modeOpen {
+		return false
+	}
 	switch g.mode {
 	case modeOpen:
 		return true
@@ -819,6 +907,17 @@ func sortedTokens(m map[string]*issued) []tokRef {
 	}
 	sort.Slice(l, func(i, j int) bool { return l[i].token < l[j].token })
 	return l
+}
+
+// credErrList renders the registries whose CredentialFunc fails (" n idx*").
+func (w *world) credErrList() string {
+	var l []string
+	for _, g := range w.regs {
+		if g.credErr {
+			l = append(l, fmt.Sprintf("%d", g.idx))
+		}
+	}
+	return strings.TrimRight(fmt.Sprintf(" %d %s", len(l), strings.Join(l, " ")), " ")
 }
 
 func credFlags(c auth.Credential) string {
@@ -866,6 +965,9 @@ func (w *world) credentialFunc() auth.CredentialFunc {
 		defer w.mu.Unlock()
 		// credentials are configured for the registry's NAME only (not for its alias address)
 		if g := w.byHost[hostport]; g != nil && g.host == hostport {
+			if g.credErr {
+				return auth.EmptyCredential, errCredHelper
+			}
 			return g.clientCred, nil
 		}
 		return auth.EmptyCredential, nil
@@ -885,7 +987,9 @@ func classifyResult(res *http.Response, err error) string {
 		return "=nocred"
 	case strings.Contains(err.Error(), "missing username or password"):
 		return "=missing"
-	case strings.Contains(err.Error(), "not rewindable"):
+	case errors.Is(err, errCredHelper):
+		return "=crederr"
+	case strings.Contains(err.Error(), "not rewindable"), strings.Contains(err.Error(), "failed to get request body"):
 		return "=rewind"
 	case errors.Is(err, errInjected) || errors.Is(err, context.Canceled):
 		return "=transport"
@@ -916,6 +1020,7 @@ func historyCase(hseed uint64) {
 	for _, g := range w.regs {
 		fmt.Fprintf(&line, " %d %s", g.idx, credFlags(g.clientCred))
 	}
+	line.WriteString(w.credErrList())
 	nreq := 4 + r.Intn(run.Scale(9, 13))
 	nreqModel := nreq
 	head := line.String()
@@ -938,11 +1043,12 @@ func historyCase(hseed uint64) {
 		case 0:
 			method, path, body = http.MethodPost, "/v2/"+repo+"/blobs/uploads/", "rewind"
 		case 1:
-			method, path, body = http.MethodPut, "/v2/"+repo+"/manifests/v1", common.Pick(r, []string{"rewind", "once"})
+			method, path, body = http.MethodPut, "/v2/"+repo+"/manifests/v1", common.Pick(r, []string{"rewind", "once", "geterr"})
 		case 2:
 			method, path = http.MethodDelete, "/v2/"+repo+"/manifests/v1"
 		}
-		ctx, cancelReq := context.WithCancel(context.Background())
+		// per-request watchdog: a request of a sequential history never waits for anybody
+		ctx, cancelReq := context.WithTimeout(context.Background(), requestDeadline)
 		if len(gh) > 0 {
 			ctx = auth.WithScopes(ctx, clone(gh)...)
 		}
@@ -963,6 +1069,8 @@ func historyCase(hseed uint64) {
 			rd = bytes.NewReader([]byte(payload))
 		case "once":
 			rd = onceReader{strings.NewReader(payload)}
+		case "geterr":
+			rd = bytes.NewReader([]byte(payload))
 		}
 		target := g.host
 		if r.Chance(1, 6) {
@@ -974,6 +1082,9 @@ func historyCase(hseed uint64) {
 			panic(err)
 		}
 		req.Host = g.host
+		if body == "geterr" {
+			req.GetBody = func() (io.ReadCloser, error) { return nil, errors.New("body source is gone") }
+		}
 		w.cur, w.events, w.answers, w.regSends, w.fetches = g, nil, nil, 0, 0
 		w.violations = nil
 		w.noScope = false
@@ -997,7 +1108,7 @@ func historyCase(hseed uint64) {
 			}
 			run.Count("history/failure-injected")
 		}
-		valid := w.validFor(g, oauth2) && g.mode != modeWeird && body != "once" && w.failAt < 0
+		valid := w.validFor(g, oauth2) && g.mode != modeWeird && body != "once" && body != "geterr" && w.failAt < 0
 		// a request that already carries an Authorization header is passed through as it is
 		// (not a model request: it must not touch the cache, which the following requests show)
 		if r.Chance(1, 25) {
@@ -1028,6 +1139,14 @@ func historyCase(hseed uint64) {
 			io.Copy(io.Discard, res.Body)
 			res.Body.Close()
 		}
+		if err != nil && errors.Is(err, context.DeadlineExceeded) {
+			// nothing in a sequential history can make Do wait: it sat on an in-flight
+			// entry of the cache that nobody owns any more
+			cancelReq()
+			wedged["history"]++
+			run.OracleFail(id, "no-progress", fmt.Sprintf("request %d of history %d (%s %s, cache %s) made no progress for %v although no other request was running (sends so far %v): it waits on an in-flight token fetch that no caller owns", q, hseed, method, req.URL, flavour, requestDeadline, w.events), rep)
+			return
+		}
 		cancelReq()
 		if w.failed && result != "=transport" {
 			run.OracleFail(id, "failure-swallowed", fmt.Sprintf("request %d of history %d: a send got no response but Do ended with %s (%v)", q, hseed, result, err), rep)
@@ -1055,6 +1174,10 @@ func historyCase(hseed uint64) {
 		if valid && !w.noScope && !w.redirected && result != "=ok" {
 			run.OracleFail(id, "valid-credentials-rejected", fmt.Sprintf("%s: the client holds valid credentials but Do ended with %s (%v): %v", where, result, err, w.events), rep)
 		}
+	}
+	for _, rdc := range w.redirects {
+		run.Case(run.NewID(), rdc[0], rdc[1])
+		run.Count("redirect-policy-case")
 	}
 	full := fmt.Sprintf("%s %d", head, len(w.ptable))
 	for _, e := range w.ptable {
